@@ -1314,6 +1314,15 @@ def r04_9(ctx):
     curs = c16.cursor_locals(ctx, b, m)
     # the first-segment record: the named Option local holding a (point, normal) tuple
     recs = [i for i, l in enumerate(b.locals) if l.get('name') and l['ty'].startswith('std::option::Option<(') and 'Vector2D' in l['ty']]
+    # state lives across ops: it is initialised before the op loop (parameters of an inlined helper are not)
+    _arm_blocks = set()
+    for _tgt in m.arms.values():
+        _arm_blocks |= arm_region(an.cfg, m.bb, _tgt)
+    _inloop = set()
+    for _h, _bl in an.cfg.loops().items():
+        if m.bb in _bl:
+            _inloop |= _bl
+    recs = [i for i in recs if any(d.bb not in _arm_blocks and d.bb not in _inloop and d.bb >= 0 and d.kind != 'param' and an.cfg.dominates(d.bb, m.bb) for d in an.defs_of.get(i, []))]
     if not ctx.check(len(curs) == 1 and len(recs) == 1, R, key + '|cursors', b.loc(), 'cursor and first-segment record found', 'cannot identify the cursor and the first-segment record of stroke_to_path (fail closed)'):
         return
     cur, rec = list(curs)[0], recs[0]
@@ -1338,6 +1347,15 @@ def r04_10(ctx):
     import props.c16 as c16
     curs = c16.cursor_locals(ctx, b, m)
     recs = [i for i, l in enumerate(b.locals) if l.get('name') and l['ty'].startswith('std::option::Option<(') and 'Vector2D' in l['ty']]
+    # state lives across ops: it is initialised before the op loop (parameters of an inlined helper are not)
+    _arm_blocks = set()
+    for _tgt in m.arms.values():
+        _arm_blocks |= arm_region(an.cfg, m.bb, _tgt)
+    _inloop = set()
+    for _h, _bl in an.cfg.loops().items():
+        if m.bb in _bl:
+            _inloop |= _bl
+    recs = [i for i in recs if any(d.bb not in _arm_blocks and d.bb not in _inloop and d.bb >= 0 and d.kind != 'param' and an.cfg.dominates(d.bb, m.bb) for d in an.defs_of.get(i, []))]
     if not ctx.check(len(curs) == 1 and len(recs) == 1, R, key + '|cursors', b.loc(), 'cursor and first-segment record found', 'cannot identify the cursor and the first-segment record of stroke_to_path (fail closed)'):
         return
     cur, rec = list(curs)[0], recs[0]
@@ -1390,3 +1408,85 @@ def r04_12(ctx):
         ok = ok and (roots == {4, 5} or all(isinstance(x, int) for x in roots))
     ctx.check(ok, R, key + '|miter limit identity', call_line(b, li[0]), 'tested expression == miter_limit^2 * (1 + s1 . s2)',
               'the miter test compares 2 with %s, which is not miter_limit^2 * (1 + s1 . s2): e.g. with the sign of the dot product lost the test becomes miter_limit^2 * (1 - cos) — right only at right angles — so sharp corners are never bevelled (a long spike is painted outside the stroke) and shallow ones lose their miter' % E.show(b)[:300])
+
+
+def r04_13(ctx):
+    """line_intersection(a, a_perp, b, b_perp) returns the point P with a_perp . (P - a) == 0 and b_perp . (P - b) == 0
+    (the miter tip lies on both offset lines); decided as polynomial identities after clearing the denominator, and the
+    division is guarded by denom != 0"""
+    import geomalg
+    from geomalg import VA
+    R = 'R04.13'
+    q = ST + 'line_intersection'
+    b = ctx.body(q, R)
+    an = ctx.an(b)
+    key = 'stroke::line_intersection'
+    va = VA(ctx)
+    P = lambda i: ('param', i)
+    rts = [t for t in shared.ret_terms(ctx, b) if t[0] == 'agg' and t[3] == 'Some']
+    if not ctx.check(len(rts) == 1, R, key + '|result', b.loc(), 'one Some(point) return', 'expected one Some(..) return in line_intersection, found %d (fail closed)' % len(rts)):
+        return
+    pt = va.vec(dict(rts[0][4])['0'])
+    def v(i):
+        return va.vec(P(i))
+    def dot(u, w):
+        return u[0] * w[0] + u[1] * w[1]
+    a, ap, bb, bp = v(1), v(2), v(3), v(4)
+    e1 = dot(ap, (pt[0] - a[0], pt[1] - a[1]))
+    e2 = dot(bp, (pt[0] - bb[0], pt[1] - bb[1]))
+    def cleared(p):
+        invs = set(l for l in p.leaves() if isinstance(l, tuple) and l and l[0] == 'inv')
+        for il in invs:
+            D = va.sp(il[1])
+            out = Poly()
+            for mono, c in p.d.items():
+                m = list(mono)
+                if il in m:
+                    m.remove(il)
+                    out = out + Poly({tuple(sorted(m, key=repr)): c})
+                else:
+                    out = out + Poly({mono: c}) * D
+            p = out
+        return p
+    z1, z2 = cleared(e1), cleared(e2)
+    ctx.check(not z1.d and not z2.d, R, key + '|lies on both lines', b.loc(), 'a_perp.(P - a) == 0 and b_perp.(P - b) == 0 identically',
+              'the point returned by line_intersection does not lie on both lines: a_perp.(P - a) = %s, b_perp.(P - b) = %s (after clearing the denominator) — the miter tip is misplaced' % (z1.show(b)[:160], z2.show(b)[:160]))
+    # the Some return is reached only when the divisor is non-zero
+    sb = None
+    for r in an.cfg.returns:
+        pass
+    somes = [bi for bi, k2, s in b.statements() if s['k'] == 'assign' and s['rv']['k'] == 'agg' and s['rv'].get('v') == 'Some' and bi in an.cfg.reach]
+    okg = bool(somes)
+    for bi in somes:
+        gs = normalized_guards(ctx, b, bi)
+        okg = okg and any(op in ('Ne', '!Eq') and const_val(b2) == 0 for op, a2, b2, si in gs if b2 is not None)
+    ctx.check(okg, R, key + '|parallel lines', b.loc(), 'Some(..) only when the denominator is non-zero', 'line_intersection divides without excluding a zero denominator (parallel normals): the miter point would be infinite/NaN')
+
+
+def r04_14(ctx):
+    """compute_normal(p0, p1) is perpendicular to p1 - p0 (polynomial identity N . (p1 - p0) == 0), both components are
+    divided by the same length, and a zero-length segment yields None"""
+    import geomalg
+    from geomalg import VA
+    R = 'R04.14'
+    b = ctx.body(ST + 'compute_normal', R)
+    an = ctx.an(b)
+    key = 'stroke::compute_normal'
+    va = VA(ctx)
+    rts = [t for t in shared.ret_terms(ctx, b) if t[0] == 'agg' and t[3] == 'Some']
+    nones = [t for t in shared.ret_terms(ctx, b) if t[0] == 'agg' and t[3] == 'None']
+    if not ctx.check(len(rts) == 1 and len(nones) >= 1, R, key + '|result', b.loc(), 'Some(normal) and None returns', 'expected one Some(..) and a None return in compute_normal (fail closed)'):
+        return
+    n = va.vec(dict(rts[0][4])['0'])
+    p0, p1 = va.vec(('param', 1)), va.vec(('param', 2))
+    d = (p1[0] - p0[0], p1[1] - p0[1])
+    e = n[0] * d[0] + n[1] * d[1]
+    invs = set(l for l in (n[0].leaves() | n[1].leaves()) if isinstance(l, tuple) and l and l[0] == 'inv')
+    ctx.check(not e.d and len(invs) == 1 and all(is_call(strip_all(l[1]), '::hypot') or strip_all(l[1])[0] in ('phi', 'rec') for l in invs), R, key + '|perpendicular', b.loc(), 'N . (p1 - p0) == 0, both components over one length',
+              'compute_normal does not return a vector perpendicular to the segment with both components divided by the same length (N . (p1 - p0) = %s)' % e.show(b)[:200])
+    somes = [bi for bi, k2, s in b.statements() if s['k'] == 'assign' and s['rv']['k'] == 'agg' and s['rv'].get('v') == 'Some' and bi in an.cfg.reach]
+    okg = bool(somes)
+    for bi in somes:
+        gs = normalized_guards(ctx, b, bi)
+        okg = okg and any(op in ('Ne', '!Eq') and const_val(b2) == 0 for op, a2, b2, si in gs if b2 is not None)
+    ctx.check(okg, R, key + '|zero length', b.loc(), 'Some(..) only for a non-zero length', 'compute_normal divides by the segment length without excluding zero')
